@@ -91,6 +91,12 @@ func genCase(r *rand.Rand, firstTop, noQual bool) caseData {
 			case 1:
 				mode = []string{"pointer", "pointer", "value", ""}[r.Intn(4)]
 			}
+			if mode == "value" && g.Type == "any" {
+				// an interface-typed global can only be supplied through a pointer
+				// to a variable of the interface type (*any): a plain value has
+				// its dynamic type, which the documentation rejects
+				mode = "pointer"
+			}
 			if mode == "" {
 				continue
 			}
@@ -110,7 +116,7 @@ func goValue(typ string, v value) any {
 	switch typ {
 	case "string":
 		return v.S
-	case "int":
+	case "int", "any":
 		return v.N
 	case "A3":
 		return [3]int{v.N, v.N + 1, v.N + 2}
@@ -134,6 +140,8 @@ func declarations(p *prog) native.Declarations {
 			return (*int)(nil)
 		case "A3":
 			return (*[3]int)(nil)
+		case "any":
+			return (*any)(nil)
 		}
 		return (*T)(nil)
 	}
@@ -234,6 +242,10 @@ func (prop) Work(c core.Case) core.Result {
 			init[g.Name] = s.Val
 			if s.Mode == "pointer" {
 				pv := ptrTo(gv)
+				if g.Type == "any" {
+					var x any = gv // a *any whose element holds an int
+					pv = &x
+				}
 				vars[g.Name] = pv
 				ptrs[g.Name] = reflect.ValueOf(pv)
 			} else {
@@ -290,6 +302,12 @@ func (prop) Work(c core.Case) core.Result {
 					got[""] = value{S: pv.Elem().String()}
 				case "int":
 					got[""] = value{N: int(pv.Elem().Int())}
+				case "any":
+					n, ok := pv.Elem().Interface().(int)
+					if !ok {
+						return fail("run %d: global %s (type any) was passed as *any holding an int; after Run the caller's variable holds %#v", run, g.Name, pv.Elem().Interface())
+					}
+					got[""] = value{N: n}
 				case "A3":
 					a := pv.Elem().Interface().([3]int)
 					for i, c := range components("A3") {
